@@ -227,6 +227,22 @@ def mk_variant(rng, op, m, n, what):
     return c
 
 
+def mk_zero(rng, op, m, n):
+    """the all-zero frame: jitter / smear divide 0 by 0 (model: undefined), pixel returns zeros"""
+    c = mk_case(rng, op, m, n, 'quick', 0, kind='background', variants=False)
+    c['img'] = [[0] * n for _ in range(m)]
+    c['kind'] = 'zero'
+    return c
+
+
+def mk_angle_none(rng, m, n):
+    c = mk_case(rng, 'smear', m, n, 'quick', 0, kind=rng.choice(['background', 'dense', 'sparse']), variants=False)
+    c['angle'] = None
+    c['npseed'] = rng.randrange(1000)
+    c['shifts'] = []
+    return c
+
+
 def mk_big(rng, op, shape):
     """a frame of about 2**20 samples: flat background and a few point sources (one next to a corner), compact kernel;
     decided by the oracle alone, against the transform pair written as explicit DFT matrices"""
@@ -329,6 +345,11 @@ def generate(rng, tier):
             for _ in range(2):
                 out.append(mk_near(rng, op, *rng.choice(small[:6])))
         out.append(mk_big(rng, 'jitter', rng.choice(BIG_SHAPES[:2])))
+        for op in ops:
+            out.append(mk_zero(rng, op, *rng.choice(small)))
+            out.append(mk_zero(rng, op, *rng.choice(PRIME_MODEL[:4])))
+        for _ in range(3):
+            out.append(mk_angle_none(rng, *rng.choice(small[:6])))
     else:
         shapes = [s for s in SHAPES_ALL if cost(*s) <= 60000]
         ncase, allshifts = 1200, 25
@@ -354,6 +375,11 @@ def generate(rng, tier):
                 out.append(mk_near(rng, op, *rng.choice(small)))
         for shape in BIG_SHAPES:
             out.append(mk_big(rng, 'jitter', shape))
+        for op in ops:
+            for sh in small + PRIME_MODEL[:4]:
+                out.append(mk_zero(rng, op, *sh))
+        for _ in range(20):
+            out.append(mk_angle_none(rng, *rng.choice(small)))
         for shape in BIG_SHAPES[:3]:
             out.append(mk_big(rng, 'pixel', shape))
             out.append(mk_big(rng, 'smear', shape))
@@ -372,6 +398,8 @@ def classify(c):
         return 'history/' + '-'.join(k['op'] for k in c['calls'])
     ext = c['os'] if c['op'] == 'pixel' else c['ext']
     tag = f"{c['op']}/{asp}/{c.get('kind', 'corpus')}/{'zero-extent' if Fraction(ext) == 0 else 'blur'}"
+    if c['op'] == 'smear' and c['angle'] is None:
+        tag += '/angle-none'
     if c.get('nomodel'):
         tag += '/oracle-only'
     if c.get('dtype'):
@@ -411,7 +439,9 @@ def params(c):
     if c['op'] != 'pixel':
         p['ext'] = num(c['ext'])
         p['ps'] = num(c['ps'])
-    if c['op'] == 'smear':
+    if c['op'] == 'smear' and c['angle'] is None:
+        p['angle'] = None                        # random direction (global numpy stream)
+    elif c['op'] == 'smear':
         p['angle'] = num(c['angle'])
         a = np.radians(float(p['angle']))
         p['sn'] = float(np.sin(a))
@@ -469,7 +499,7 @@ def enc_table(t):
 
 
 def encode(c):
-    if c.get('nomodel') or c['op'] == 'history':
+    if c.get('nomodel') or c['op'] == 'history' or (c['op'] == 'smear' and c['angle'] is None):
         return None             # decided by the oracle alone (shapes too expensive for the group ring; call histories)
     m, n = shape_of(c)
     L = lcm(m, n)
@@ -495,11 +525,11 @@ _BIN = []
 
 
 def model_renorm(absd, img):
-    """second model stage: out * sum(img) / sum(out) on the rationals"""
+    """second model stage: out * sum(img) / sum(out) on the rationals, as executed: None when sum(out) = 0 (0/0)"""
     if not _BIN:
         _BIN.append(C.build_model(MODEL))
     import subprocess
-    inp = ' '.join(str(int(x)) for x in [4] + enc_qarr(absd) + enc_qarr(img)) + '\n'
+    inp = ' '.join(str(int(x)) for x in [5] + enc_qarr(absd) + enc_qarr(img)) + '\n'
     pr = subprocess.run([_BIN[0]], input=inp, stdout=subprocess.PIPE, stderr=subprocess.PIPE, text=True, timeout=600)
     if pr.returncode != 0:
         raise RuntimeError('model binary failed in the renormalisation stage: ' + pr.stderr[-300:])
@@ -507,6 +537,8 @@ def model_renorm(absd, img):
     rd = C.Reader(res, 1)
     if rd.z() != 0:
         raise ValueError('renorm stage rejected its input')
+    if rd.z() == 0:
+        return None                      # the model's all-NaN frame
     return [[float(v) for v in row] for row in rd.arr(rd.q)]
 
 
@@ -525,7 +557,8 @@ def decode(c, ints):
     absd = np.abs(pre)                      # np.abs: applied here, between the two model stages
     if c['op'] == 'pixel':
         return {'out': absd.tolist()}
-    return {'out': model_renorm(absd, get_img(c))}
+    out = model_renorm(absd, get_img(c))
+    return {'undefined': True} if out is None else {'out': out}
 
 
 # ------------------------------------------------------------------ implementation side
@@ -681,6 +714,8 @@ def run_impl(c):
     img = get_img(c)
     p = params(c)
     res = {}
+    if c['op'] == 'smear' and c['angle'] is None:
+        np.random.seed(c.get('npseed', 1))       # the direction is drawn from numpy's global stream
 
     def one(image, pp):
         try:
@@ -714,7 +749,7 @@ def run_impl(c):
         res['samples'] = one(mk_img(c), ps_)
     else:
         o = Fraction(c['os'])
-        if o.denominator == 1 and o >= 1 and 'proc' not in c and not c.get('scale2'):
+        if o.denominator == 1 and o >= 1 and 'proc' not in c and not c.get('scale2') and np.any(img):   # (rescale of an all-zero frame is C17's 0/0)
             try:
                 a = lentil.detector.pixelate(mk_img(c), int(o))
                 b = lentil.rescale(lentil.detector.pixel(mk_img(c), int(o)), 1 / int(o), order=3, mode='nearest', unitary=True)
@@ -743,6 +778,11 @@ def compare(c, impl, model):
         return f'implementation {impl.get("err", "returned a value")}, model {model.get("err", "returned a value")}'
     if 'err' in impl:
         return None
+    if model.get('undefined'):
+        o = np.asarray(impl['out'], dtype=float)
+        if o.shape == shape_of(c) and np.all(np.isnan(o)):
+            return None
+        return f'{c["op"]}: the model divides 0 by 0 (all-NaN frame), the implementation returned numbers'
     msg = arr_close(impl['out'], model['out'])
     return f'{c["op"]}: {msg}' if msg else None
 
@@ -803,6 +843,8 @@ def check_out(c, impl):
     if c['op'] != 'pixel':
         if abs(float(np.sum(out)) - float(np.sum(img))) > TOL * m * n * scale:
             return f'total not kept: sum(img) = {np.sum(img)}, sum(out) = {np.sum(out)}'
+    if c['op'] == 'smear' and c.get('angle', 0) is None:
+        return None                              # random direction: only the clauses that hold for every angle
     T = transfer(c, m, n)
     if abs(T[0, 0] - 1) > 1e-12:
         return 'oracle transfer function has no unit gain (harness bug)'
@@ -850,16 +892,44 @@ def oracle_history(c, impl):
     return None
 
 
+def oracle_zero_frame(c, impl):
+    """jitter / smear of the all-zero frame: the property's clauses about totals speak of non-zero images (the code
+    computes 0 * 0 / 0); the shape must be kept and no sample may be negative - an all-zero or an all-NaN frame"""
+    m, n = shape_of(c)
+    if 'err' in impl:
+        return f'{c["op"]} raised {impl["err"]} on the all-zero {m}x{n} frame'
+    for name in ('out', 'again', 'zero', 'samples'):
+        r = impl.get(name)
+        if r is None:
+            continue
+        if isinstance(r, dict):
+            return f'raised {r["err"]} on the all-zero frame ({name})'
+        o = np.asarray(r, dtype=float)
+        if o.shape != (m, n):
+            return f'shape not preserved on the all-zero frame: {o.shape}'
+        if not (np.all(np.isnan(o)) or not np.any(o)):
+            return f'the all-zero frame is blurred into something that is neither all zero nor all NaN ({name})'
+    return None
+
+
 def oracle(c, impl):
     if c['op'] == 'history':
         return oracle_history(c, impl)
     img = get_img(c)
     m, n = img.shape
+    if c['op'] != 'pixel' and not np.any(img):
+        return oracle_zero_frame(c, impl)
     msg = check_out(c, impl)
     if msg:
         return msg
     if impl.get('input_untouched') is False:
         return 'the image passed by the caller was modified by the call'
+    if c['op'] == 'smear' and c['angle'] is None:
+        z = impl.get('zero')
+        if isinstance(z, dict):
+            return f'raised {z["err"]} at zero extent'
+        msg = arr_close(z, img)
+        return f'zero extent is not the identity: {msg}' if msg else None
     out = np.asarray(impl['out'], dtype=float)
     # commutation with circular translation
     for s, r in zip(c.get('shifts', []), impl.get('rolled', [])):
